@@ -47,7 +47,7 @@ def gen(rng, tier):
             yield {"family": "tls.alpn", "kind": "tls", "backend": be, "offer": offer, "backends": [be]}
     n = 0
     kinds = ["alpn_h2", "alpn_h11", "tls_noalpn", "prior", "h2c", "h2c_settings", "h2c_body", "websocket", "plain", "plain_pipelined",
-             "not_get_with_ws_fields", "h2c_http10", "websocket_early_frame"]
+             "not_get_with_ws_fields", "h2c_http10", "websocket_early_frame", "pri_http11", "h2c_refused_host"]
     reps = 4 if tier == "quick" else 12
     for rep in range(reps):
         for kind in kinds:
@@ -105,6 +105,18 @@ def gen(rng, tier):
                                b"Transfer-Encoding: chunked\r\n\r\n5\r\nhas-a\r\n5\r\n-body\r\n0\r\n\r\n" % tags[0])
                 trailing = _h1_req(tags[1])
                 truth.update(proto="h1", version="1.1", expect=[tags[0], tags[1]])
+            elif kind == "pri_http11":
+                # only the HTTP/2 preface selects HTTP/2: "PRI * HTTP/1.1" is an HTTP/1.1 request with an unusual method, like any other
+                opening = b"PRI * HTTP/1.1\r\nHost: h.example\r\n\r\n"
+                trailing = _h1_req(tags[1])
+                truth.update(proto="h1", version="1.1", expect=[tags[1]], pri=True)
+            elif kind == "h2c_refused_host":
+                # an h2c upgrade of a request the server answers itself (Host not among server_names): stream 1 carries that answer,
+                # whole, and the connection goes on as HTTP/2
+                opening = b"GET /t%d HTTP/1.1\r\nHost: other.example\r\nConnection: Upgrade, HTTP2-Settings\r\nUpgrade: h2c\r\nHTTP2-Settings: \r\n\r\n" % tags[0]
+                trailing = client_preface(fb, {}) + _h2_req(fb, 3, tags[1], body)
+                reactor = {"kind": "h2", "credit": "auto", "skip_h1_101": True}
+                truth.update(proto="h2c", version="2", expect={tags[1]: 3}, refused=True, server_names=["h.example"])
             elif kind == "websocket_early_frame":
                 # a client that does not wait for the 101: its first frame follows the opening at once.  The application decides late (after
                 # everything has arrived), so whatever the server makes of the early frame it makes of it for every segmentation - and if it
@@ -140,7 +152,8 @@ def gen(rng, tier):
                     a, b = sorted(rng.sample(range(1, L), 2))
                     three.append([a, b - a])
             yield {
-                "family": kind, "backends": ["asyncio", "trio"], "config": {"keep_alive_timeout": 5000}, "conn": conn,
+                "family": kind, "backends": ["asyncio", "trio"],
+                "config": dict({"keep_alive_timeout": 5000}, **({"server_names": truth["server_names"]} if truth.get("server_names") else {})), "conn": conn,
                 "apps": {"default": [["recv_until_end"], ["respond", 200, [], b"default"]], "by_tag": by_tag,
                          "websocket": [["recv"], ["send", {"type": "websocket.accept"}], ["ws_echo"]]},
                 "data": data, "opening_len": len(opening), "offsets": offsets, "three": three,
@@ -325,18 +338,24 @@ def run_one(case, tally):
                 if got_h != t["h2c_headers"]:
                     findings.append({"clause": "answered-once", "sig": "C13.lost-or-duplicated/%s/request-headers" % case["family"], "backend": be,
                                      "detail": "the upgraded request reached its application with the header lines %r, the client sent %r" % (got_h, t["h2c_headers"])})
+            if t.get("refused"):
+                s1 = rx.streams.get(1)
+                if s1 is None or s1.status != 404 or s1.ended != 1:
+                    findings.append({"clause": "answered-once", "sig": "C13.lost-or-duplicated/%s/stream-1" % case["family"], "backend": be,
+                                     "detail": "the upgraded request (Host not served here) on stream 1: %r, expected a complete 404" % (
+                                         None if s1 is None else (s1.status, s1.ended, s1.rst),)})
             for tag, sid in t["expect"].items():
                 s = rx.streams.get(sid)
                 if s is None or s.status != 200 or bytes(s.data) != b"body-%d" % tag or s.ended != 1:
                     findings.append({"clause": "answered-once", "sig": "C13.lost-or-duplicated/%s/stream-%d" % (case["family"], sid), "backend": be,
                                      "detail": "request tag %d on stream %d: %r" % (tag, sid, None if s is None else (s.status, bytes(s.data)[:20], s.ended, s.rst))})
-            extra = [sid for sid in rx.streams if sid not in t["expect"].values() and rx.streams[sid].heads]
+            extra = [sid for sid in rx.streams if sid not in t["expect"].values() and rx.streams[sid].heads and not (t.get("refused") and sid == 1)]
             if extra:
                 findings.append({"clause": "answered-once", "sig": "C13.duplicated/%s" % case["family"], "backend": be,
                                  "detail": "responses on unexpected streams %r" % extra})
         elif t["proto"] == "h1":
             got = n0[1]
-            exp = [(200, (b"%d" % tg,), b"body-%d" % tg, True) for tg in t["expect"]]
+            exp = ([(200, (), b"default", True)] if t.get("pri") else []) + [(200, (b"%d" % tg,), b"body-%d" % tg, True) for tg in t["expect"]]
             if got != ("h1", exp):
                 findings.append({"clause": "answered-once", "sig": "C13.lost-or-duplicated/%s" % case["family"], "backend": be,
                                  "detail": "responses %r expected %r" % (got, exp)})
